@@ -1875,13 +1875,37 @@ def finish_child(ctx, h, deadline=None):
     import subprocess
     import time
 
-    deadline = deadline or (300 if ctx.quick else 2400)
+    # A non-returning call shows as a child that makes NO PROGRESS (its progress file stops changing), not as a child that is slow:
+    # the stall limit is stretched by the machine's load, the overall limit is only a safety net (load-induced false alarm otherwise)
+    stall_base = deadline or (300 if ctx.quick else 600)
+    overall = 3600 if ctx.quick else 14400
     out, pid, r = h["out"], h["pid"], _R()
+    deadline = stall_base
     try:
         try:
-            left = max(1.0, deadline - (time.time() - h["t0"]))
-            _, err = h["proc"].communicate(timeout=left)
-            r.returncode, r.stderr = h["proc"].returncode, err or ""
+            last_sig, last_change = None, time.time()
+            while True:
+                try:
+                    _, err = h["proc"].communicate(timeout=2.0)
+                    r.returncode, r.stderr = h["proc"].returncode, err or ""
+                    break
+                except subprocess.TimeoutExpired:
+                    pass
+                try:
+                    st = os.stat(out + ".progress")
+                    sig = (st.st_size, st.st_mtime_ns)
+                except OSError:
+                    sig = None
+                now = time.time()
+                if sig != last_sig:
+                    last_sig, last_change = sig, now
+                try:
+                    stretch = max(1.0, os.getloadavg()[0] / (os.cpu_count() or 1))
+                except OSError:
+                    stretch = 1.0
+                deadline = round(stall_base * stretch)
+                if now - last_change > deadline or now - h["t0"] > overall:
+                    raise subprocess.TimeoutExpired("extra_ops child", deadline)
         except subprocess.TimeoutExpired:
             h["proc"].kill()
             h["proc"].communicate()
@@ -1891,7 +1915,7 @@ def finish_child(ctx, h, deadline=None):
             except OSError:
                 pass
             case = {"extra": True, "op": "extra_ops child", "last_case": last}
-            msg = f"the extra product calls did not finish within {deadline} s (a call does not return); last case started: {last[:300]}"
+            msg = f"the extra product calls made no progress for {deadline} s (a call does not return); last case started: {last[:300]}"
             ctx.fail("C", "extra_ops:timeout", case, msg, finding=findings.classify(pid, "extra_ops:timeout", case, msg))
             return 0
         try:
